@@ -1,5 +1,6 @@
 """C12 — RwLock: writers exclusive; free again once all guards are dropped (structural clauses)."""
 from lib import *
+from props import shared
 from props.shared import *
 
 EXPLANATION = ("R-ENUM acquisition protocol: RwLock::try_lock returns a non-WouldBlock variant only behind its CAS(0→1) success and "
@@ -185,6 +186,7 @@ def check(ctx):
     ctx.must_call(U, atomic("fetch_sub", R + ".cnt"), "always-decrement", "unlock always releases one count")
     handshake_waiter(ctx, LK, Call(re.escape(U)), "handshake", "lock", park_err, exits_kind="ret")
     handshake_waker(ctx, R + "::unpark_one", Call(re.escape(U)), "waker", "lock")
+    shared.wakes_dequeued_waiter(ctx, R)
     syncblocker_rules(ctx)      # the handshake primitives themselves (release is consumed atomically by exactly one side)
     ctx.mo_floor(R + ".cnt", ("fetch_sub",), "REL", "unlock-release", "critical section happens-before the next acquisition", only_in=re.escape(U))
     ctx.mo_floor(R + ".cnt", ("compare_exchange", "compare_exchange_weak"), "ACQ", "trylock-acquire", "", only_in=re.escape(TL))
